@@ -23,21 +23,28 @@ META = dict(
                "child inx only if inx >= child_index and advances child_index by one exactly when that child's visit has "
                "returned; (2) every micro-step emits at most one of start/effect/bodyStart and only at its site (effect: "
                "own body at pc 0, in the step that completes the node or hands the command over; start: wrapper after "
-               "the threshold); (3) the body of a trailing Blank/Comment never returns and never completes; (4) for "
-               "methods without Alarm and Call macro, a Mark takes effect at most once over the whole run and is "
-               "completed from then on (completed is never cleared). The model is tied to the real PInterpreter by "
-               "differential execution (per-tick node flags incl. child_index, Mark/Block tags, interrupt map, events).",
-    level_note="PARTIAL: the whole-run 'at most once / in order' conclusion is proved for Marks of methods without Alarm "
-               "and Call macro; for the general case the per-generator order (stack discipline + loop step theorems) is "
-               "proved but not the uniqueness of the generator that runs a scope. The full statement C02_full is FALSE "
-               "for a Watch nested in an Alarm (C02_counterexample, decide +kernel): the re-armed Alarm runs the Watch "
-               "body inline while the Watch's own interrupt runs it too, so lines start twice / out of order within one "
-               "invocation — reproduced on the real engine and recorded (findings.d/C02.json), as is 'Wait: d' with d "
-               "below the 0.1 s correction, which never completes. Reading of 'completed' for resident instructions: an "
-               "Engine/UOD command is handed to the engine and the next line starts (by design); Watch/Alarm lines are "
-               "registered and the next line starts. 'At the end of a scope' is read as the code defines it "
-               "(has_only_trailing_whitespace: nothing but blank/comment lines follow in every enclosing scope). "
-               "Trusted: Lean kernel, harness, model inputs (clocks, condition tags, command completion).",
+               "the threshold); (3) a trailing Blank/Comment never returns from its body and is never completed in any "
+               "reachable state; (4) for methods without Alarm and Call macro, a Mark takes effect at most once over the "
+               "whole run (completed is never cleared); (5) for sequential methods (no Watch/Alarm/Call macro: Blocks, "
+               "End block(s), thresholds, Waits, Marks, commands, Base, blank lines, failing lines) the full statement: "
+               "every line starts at most once in the whole run and lines of a scope are entered in source order, each "
+               "only after the visit of the previous one returned and after the enclosing scope started (structural invariant of the single generator: the "
+               "stack is the root-to-line path, inx = child_index for every loop frame). The model is tied to the real "
+               "PInterpreter by differential execution (per-tick node flags incl. child_index, Mark/Block tags, "
+               "interrupt map, events).",
+    level_note="PARTIAL: the whole-run 'once, in order' statement is proved for sequential methods (C02_partial) and, for "
+               "Marks, for all methods without Alarm/Call macro; for methods with Watches/Alarms/macro calls the "
+               "per-generator order (stack discipline + loop step theorems) is proved but not the uniqueness of the "
+               "generator that runs a scope. The full statement C02_full is FALSE for a Watch nested in an Alarm "
+               "(C02_counterexample, decide +kernel): the re-armed Alarm runs the Watch body inline while the Watch's own "
+               "interrupt runs it too, so lines start twice / out of order within one invocation — reproduced on the "
+               "real engine and recorded (findings.d/C02.json), as is 'Wait: d' with d below the 0.1 s correction, which "
+               "never completes. Reading of "
+               "'completed' for resident instructions: an Engine/UOD command is handed to the engine and the next line "
+               "starts (by design); Watch/Alarm lines are registered and the next line starts. 'At the end of a scope' "
+               "is read as the code defines it (has_only_trailing_whitespace: nothing but blank/comment lines follow in "
+               "every enclosing scope). Trusted: Lean kernel, harness, model inputs (clocks, condition tags, command "
+               "completion).",
     technique="Lean 4 proof (inductive invariants over micro-steps lifted to ticks and runs, counting argument, "
               "decide +kernel counterexample) + differential correspondence + engine oracle",
 )
@@ -45,7 +52,10 @@ MODULE = "OPM.Properties.C02"
 REQUIRED = ["OPM.C02.stack_discipline", "OPM.C02.stack_discipline_step", "OPM.C02.loop_enters_child_in_order",
             "OPM.C02.loop_advances_when_child_returns", "OPM.C02.one_event_per_step_at_its_site",
             "OPM.C02.trailing_blank_never_returns", "OPM.C02.completed_is_never_cleared",
-            "OPM.C02.mark_takes_effect_at_most_once", "OPM.C02.C02_counterexample"]
+            "OPM.C02.trailing_blank_is_never_completed", "OPM.C02.mark_takes_effect_at_most_once",
+            "OPM.C02.sequential_line_starts_at_most_once", "OPM.C02.sequential_lines_in_source_order",
+            "OPM.C02.sequential_line_entered_after_scope_started",
+            "OPM.C02.C02_partial", "OPM.C02.C02_counterexample"]
 FEATURES = {"mark", "block", "watch", "alarm", "wait", "cmd", "thr", "base", "blank", "engine"}
 HANDOFF = ("UodCommandNode", "EngineCommandNode")
 SHORT_WAIT = 0.1
@@ -248,16 +258,16 @@ def run(ctx: Check) -> int:
                 "35% without Alarm, 45% all structures) on the real Engine, 70 ticks, random condition-tag plans.")
     rng = ctx.rng
     extra = [{"pcode": pcode_of(gen_acyclic(rng)), "ops": gen_schedule(rng, rng.randrange(15, 45))}
-             for _ in range(ctx.n(25, 500))]
-    cases, impl_out, model_out = m3_stream(ctx, "interp-m3", ctx.n(110, 2600), features=FEATURES, extra_cases=extra)
+             for _ in range(ctx.n(25, 2000))]
+    cases, impl_out, model_out = m3_stream(ctx, "interp-m3", ctx.n(110, 12000), features=FEATURES, extra_cases=extra)
     tm["m3-stream"] = round(time.time() - t0 - sum(tm.values()), 1)
     if model_out:
         lines_of = {id(c): run_case(c)[0] for c in cases[:60]}
         sub = cases[:60]
         ctx.selftest("interp-m3", "Interp", sub, lambda c: _swap_marks(lines_of[id(c)]), model_out[:60])
-    m3_stream(ctx, "interp-m3-malformed", ctx.n(25, 500), features=FEATURES, malformed=True)
+    m3_stream(ctx, "interp-m3-malformed", ctx.n(25, 2500), features=FEATURES, malformed=True)
     tm["selftest+malformed"] = round(time.time() - t0 - sum(tm.values()), 1)
-    ocases = [c for c in load_corpus("C02") if "ticks" in c] + gen_oracle_cases(ctx, ctx.n(250, 6000))
+    ocases = [c for c in load_corpus("C02") if "ticks" in c] + gen_oracle_cases(ctx, ctx.n(250, 20000))
     ctx.monitor(ocases, oracle_case, impl_timeout=60)
     tm["oracle"] = round(time.time() - t0 - sum(tm.values()), 1)
     ctx.assumptions = ["clock tags, condition tags and command completion are inputs of the model",
